@@ -125,7 +125,7 @@ package redis
 
 //@ func NewErrorNotSupportedMessage
 //@ assigns nothing
-//@ ensures result != nil && fresh(result) && result.Type == proto.ErrorMessage
+//@ ensures result != nil && fresh(result) && result.Type == proto.ErrorMessage && result.array == nil
 
 //@ func newMissingArgumentError
 //@ assigns nothing
@@ -236,6 +236,8 @@ package redis
 //@ ensures {C20} span_depth == old(span_depth)
 //@ ensures {C08} conn.authrized && !old(conn.authrized) ==> authed
 //@ ensures {C08} old(authed) ==> authed
+// an array reply is handed over unread (handlers: assumed; the framework's own replies: proved here)
+//@ ensures {C12} result0 != nil && result0.array != nil ==> result0.array.index == 0
 // Connection-scoped state changes only through SELECT and AUTH. Not checked for the seven commands that re-enter the dispatcher with a
 // literal command name (HEXISTS HKEYS HLEN HSTRLEN HVALS STRLEN SUBSTR): the dynamic call in executeCommand is only known by the generic
 // contract, which cannot say which executor was looked up.
@@ -251,6 +253,7 @@ package redis
 //@ ensures {C08} old(authed) ==> authed
 //@ ensures {C08} !old(conn.authrized) && !isAuthCmd(cmd) ==> H_calls == old(H_calls) && !conn.authrized && err == ErrNotAuthrized || server.userCommandHandler == nil || !dom(server.commandExecutors, toUpper(cmd))
 //@ ensures {C05} server.userCommandHandler == nil || !dom(server.commandExecutors, toUpper(cmd)) ==> H_calls == old(H_calls) && err == nil && result0 != nil && result0.Type == proto.ErrorMessage
+//@ ensures {C12} result0 != nil && result0.array != nil ==> result0.array.index == 0
 
 // ---------------------------------------------------------------- options.go
 
@@ -572,23 +575,30 @@ package redis
 // the interfaces through which the executors reach those handlers
 //@ interface redis.SystemCommandHandler.Ping(conn, arg)
 //@ ensures err == nil && result0 != nil
+//@ ensures {C12} result0 != nil && result0.array != nil ==> result0.array.index == 0
 //@ interface redis.SystemCommandHandler.Echo(conn, arg)
 //@ ensures err == nil && result0 != nil
+//@ ensures {C12} result0 != nil && result0.array != nil ==> result0.array.index == 0
 //@ interface redis.SystemCommandHandler.Select(conn, index)
 //@ assigns conn.id
 //@ ensures err == nil && result0 != nil && conn.id == index
+//@ ensures {C12} result0 != nil && result0.array != nil ==> result0.array.index == 0
 //@ interface redis.SystemCommandHandler.Quit(conn)
 //@ ensures err == ErrQuit && result0 != nil
+//@ ensures {C12} result0 != nil && result0.array != nil ==> result0.array.index == 0
 //@ interface redis.SystemCommandHandler.ConfigSet(conn, params)
 //@ assigns comp:MD|Str|Str, comp:MV|Str|Str
 //@ ensures err == nil && result0 != nil
+//@ ensures {C12} result0 != nil && result0.array != nil ==> result0.array.index == 0
 //@ interface redis.SystemCommandHandler.ConfigGet(conn, keys)
 //@ ensures err == nil && result0 != nil
+//@ ensures {C12} result0 != nil && result0.array != nil ==> result0.array.index == 0
 //@ interface redis.AuthCommandHandler.Auth(conn, username, password)
 //@ assigns conn.username, conn.password, conn.hasPassword, conn.authrized, authed, A_calls, A_fail
 //@ ensures {C08} conn.authrized && !old(conn.authrized) ==> authed
 //@ ensures {C08} old(authed) ==> authed
 //@ ensures {C08} err != nil ==> conn.authrized == old(conn.authrized)
+//@ ensures {C12} result0 != nil && result0.array != nil ==> result0.array.index == 0
 
 // ---------------------------------------------------------------- sugar_commander.go
 
@@ -598,6 +608,7 @@ package redis
 //@ assigns H_*
 //@ flag no_overflow
 //@ ensures {C12} err == nil ==> result0 != nil
+//@ ensures {C12} result0 != nil ==> result0.array == nil
 //@ ensures {C12} H_calls >= old(H_calls) + 1 && H_m[old(H_calls)] == "Get" && H_Get_key[old(H_calls)] == key && H_conn[old(H_calls)] == conn
 //@ ensures {C12} H_err[old(H_calls)] != nil ==> err != nil && H_calls == old(H_calls) + 1
 //@ ensures {C12} H_err[old(H_calls)] == nil && !msgIsNil(H_res[old(H_calls)]) && !msgIntOK(H_res[old(H_calls)]) ==> err != nil && H_calls == old(H_calls) + 1
@@ -627,16 +638,35 @@ package redis
 //@   invariant {C20} span_depth == old(span_depth)
 //@   decreases len(fields) - rangeindex
 
+// pairsOK(m): an array reply of non-null strings of even length (field, value, field, value, ...)
+//@ spec func pairsOK(m ref) bool = allStr(m) && len(m.array.msgs) % 2 == 0
+
 //@ executor "HKEYS"
+// for a well-formed HGETALL reply (non-null strings, field/value pairs): element j of the reply is field j, byte for byte
+//@ ensures {C12} err == nil && pairsOK(getAllRet) ==> result0 != nil && result0.Type == proto.ArrayMessage && result0.array != nil && 2 * len(result0.array.msgs) == len(getAllRet.array.msgs)
+//@ ensures {C12} err == nil && pairsOK(getAllRet) ==> forall j int :: 0 <= j && j < len(result0.array.msgs) ==> result0.array.msgs[j] != nil && result0.array.msgs[j].Type == proto.BulkMessage && result0.array.msgs[j].bytes != nil && string(result0.array.msgs[j].bytes) == string(getAllRet.array.msgs[2 * j].bytes)
 //@ loop 0
-//@   invariant arrayMsg != nil && retMsg != nil && fresh(retMsg) && retMsg.Type == proto.ArrayMessage && retMsg.array != nil && fresh(retMsg.array) && fresh(retMsg.array.msgs)
+//@   invariant arrayMsg != nil && retMsg != nil && fresh(retMsg) && retMsg.Type == proto.ArrayMessage && retMsg.array != nil && fresh(retMsg.array) && fresh(retMsg.array.msgs) && retMsg.array.index == 0
 //@   invariant {C20} span_depth == old(span_depth)
+//@   invariant {C12} getAllRet != nil && getAllRet.array == arrayMsg && getAllRet.Type == proto.ArrayMessage && err == nil && retMsg != getAllRet && retMsg.array != arrayMsg && arr(retMsg.array.msgs) != arr(arrayMsg.msgs)
+//@   invariant {C12} pairsOK(getAllRet) ==> arrayMsg.index - (nextMsg != nil ? 1 : 0) == 2 * len(retMsg.array.msgs) && arrayMsg.index <= len(arrayMsg.msgs)
+//@   invariant {C12} pairsOK(getAllRet) && nextMsg != nil ==> 1 <= arrayMsg.index && nextMsg == arrayMsg.msgs[arrayMsg.index - 1] && witness(arrayMsg.index) && witness(arrayMsg.index + 1)
+//@   invariant {C12} nextMsg == nil ==> arrayMsg.index >= len(arrayMsg.msgs) || (1 <= arrayMsg.index && arrayMsg.msgs[arrayMsg.index - 1] == nil && witness(arrayMsg.index - 1))
+//@   invariant {C12} pairsOK(getAllRet) ==> forall j int :: 0 <= j && j < len(retMsg.array.msgs) ==> retMsg.array.msgs[j] != nil && retMsg.array.msgs[j].Type == proto.BulkMessage && retMsg.array.msgs[j].bytes != nil && string(retMsg.array.msgs[j].bytes) == string(arrayMsg.msgs[2 * j].bytes)
 //@   decreases len(arrayMsg.msgs) - arrayMsg.index + (nextMsg != nil ? 1 : 0)
 
 //@ executor "HVALS"
+// for a well-formed HGETALL reply (non-null strings, field/value pairs): element j of the reply is value j, byte for byte
+//@ ensures {C12} err == nil && pairsOK(getAllRet) ==> result0 != nil && result0.Type == proto.ArrayMessage && result0.array != nil && 2 * len(result0.array.msgs) == len(getAllRet.array.msgs)
+//@ ensures {C12} err == nil && pairsOK(getAllRet) ==> forall j int :: 0 <= j && j < len(result0.array.msgs) ==> result0.array.msgs[j] != nil && result0.array.msgs[j].Type == proto.BulkMessage && result0.array.msgs[j].bytes != nil && string(result0.array.msgs[j].bytes) == string(getAllRet.array.msgs[2 * j + 1].bytes)
 //@ loop 0
-//@   invariant arrayMsg != nil && retMsg != nil && fresh(retMsg) && retMsg.Type == proto.ArrayMessage && retMsg.array != nil && fresh(retMsg.array) && fresh(retMsg.array.msgs)
+//@   invariant arrayMsg != nil && retMsg != nil && fresh(retMsg) && retMsg.Type == proto.ArrayMessage && retMsg.array != nil && fresh(retMsg.array) && fresh(retMsg.array.msgs) && retMsg.array.index == 0
 //@   invariant {C20} span_depth == old(span_depth)
+//@   invariant {C12} getAllRet != nil && getAllRet.array == arrayMsg && getAllRet.Type == proto.ArrayMessage && err == nil && retMsg != getAllRet && retMsg.array != arrayMsg && arr(retMsg.array.msgs) != arr(arrayMsg.msgs)
+//@   invariant {C12} pairsOK(getAllRet) ==> arrayMsg.index - (nextMsg != nil ? 1 : 0) == 2 * len(retMsg.array.msgs) && arrayMsg.index <= len(arrayMsg.msgs)
+//@   invariant {C12} pairsOK(getAllRet) && nextMsg != nil ==> 1 <= arrayMsg.index && nextMsg == arrayMsg.msgs[arrayMsg.index - 1] && witness(arrayMsg.index) && witness(arrayMsg.index + 1)
+//@   invariant {C12} nextMsg == nil ==> arrayMsg.index >= len(arrayMsg.msgs) || (1 <= arrayMsg.index && arrayMsg.msgs[arrayMsg.index - 1] == nil && witness(arrayMsg.index - 1))
+//@   invariant {C12} pairsOK(getAllRet) ==> forall j int :: 0 <= j && j < len(retMsg.array.msgs) ==> retMsg.array.msgs[j] != nil && retMsg.array.msgs[j].Type == proto.BulkMessage && retMsg.array.msgs[j].bytes != nil && string(retMsg.array.msgs[j].bytes) == string(arrayMsg.msgs[2 * j + 1].bytes)
 //@   decreases len(arrayMsg.msgs) - arrayMsg.index + (nextMsg != nil ? 1 : 0)
 
 // allPresent(m): m is an array reply whose elements are all present (what a Redis-like primitive returns); a handler returns its reply
@@ -876,6 +906,8 @@ package redis
 
 //@ executor "HLEN"
 //@ ensures {C12} err == nil ==> result0 != nil && result0.Type == proto.IntegerMessage
+// the number of elements of the HKEYS reply (the dynamic call is only known by the generic contract, so the reply is named by the local)
+//@ ensures {C12} err == nil ==> retMsg != nil && retMsg.array != nil && intReply(result0, len(retMsg.array.msgs))
 
 // MSET / MSETNX: every handler call of the request is made on the request's connection; MSET stores unconditionally (default options),
 // MSETNX first reads and then stores with the NX flag so that the handler can still refuse a key that appeared meanwhile.
